@@ -262,6 +262,11 @@ func runC01(c *Ctx) {
 		"the remainder is always sent — a batch above maxPayload is answered 413 and the transport closed, every event in it lost", 5)
 	batcherShape(c, "C01-D7")
 
+	c.Rule("C01-D9", "no frame is lost or misdelivered between layers (shared rules): each connection decodes with its own parser (C10-D9: a shared parser makes one client's frame another client's attachment), "+
+		"and packets are handed to the current transport under transportMu (C07-D8: a send in flight on the discarded transport is lost)", 5)
+	c10ParserPerConnectionRule(c, "C01-D9")
+	sendUnderTransportLock(c, "C01-D9")
+
 	c.Rule("C01-D8", "transport upgrade keeps packets whole (shared with C02-D5/C07-D2): the swap, the flush of the old transport's queue onto the new one and the UPGRADE bookkeeping happen in one write-locked region, "+
 		"so a concurrent Send cannot land between a binary event's header and its attachments", 12)
 	swapRegion(c, "C01-D8")
